@@ -709,18 +709,19 @@ def mn_do_sub(ir, instr, arg1, arg2, arg3):
         else:
             assert False
 
+    # RT = ~RA + RB + (CA or 1)
+    arg2 = ~arg2
     if has_e:
-        arg3 = arg3 + XER_CA.zeroExtend(32)
-        arg2 = arg2 + ExprInt(1, 32)
-
-    rvalue = arg3 - arg2
+        rvalue = arg2 + arg3 + XER_CA.zeroExtend(32)
+    else:
+        rvalue = arg2 + arg3 + ExprInt(1, 32)
 
     over_expr = None
     if has_o:
         msb1 = arg2.msb()
         msb2 = arg3.msb()
         msba = rvalue.msb()
-        over_expr = (msb1 ^ msb2) & (msb1 ^ msba)
+        over_expr = ~(msb1 ^ msb2) & (msb1 ^ msba)
         flags_update.append(ExprAssign(XER_OV, over_expr))
         flags_update.append(ExprAssign(XER_SO, XER_SO | over_expr))
 
@@ -728,9 +729,9 @@ def mn_do_sub(ir, instr, arg1, arg2, arg3):
         flags_update += mn_compute_flags(rvalue, over_expr)
 
     if has_c or has_e:
-        carry_expr = ((((arg3 ^ arg2) ^ rvalue) ^
-                       ((arg3 ^ rvalue) & (arg3 ^ arg2))).msb())
-        flags_update.append(ExprAssign(XER_CA, ~carry_expr))
+        carry_expr = (((arg2 ^ arg3) ^ rvalue) ^
+                      ((arg2 ^ rvalue) & (~(arg2 ^ arg3)))).msb()
+        flags_update.append(ExprAssign(XER_CA, carry_expr))
 
     return ([ ExprAssign(arg1, rvalue) ] + flags_update), []
 
